@@ -91,6 +91,8 @@ type LayB struct {
 type A struct{ X int }
 
 type B struct{ X int }
+
+type KeepT struct{ X int }
 `
 
 // layRender renders the setup file of a layout.
@@ -129,7 +131,9 @@ func layRender(l *layCase) map[string]string {
 			fmt.Fprintf(&sb, "// TMark%s is a struct, not an interface tokDOC%s.\n// :convergen\ntype TMark%s struct {\n\tA int\n}\n\n", up(it.ID), it.ID, up(it.ID))
 			continue
 		case "decl":
-			if it.Doc {
+			if it.Doc && it.Form == "blockvar" {
+				fmt.Fprintf(&sb, "/* Keep%s is documented tokDOC%s\n   in a block comment. */\n", up(it.ID), it.ID)
+			} else if it.Doc {
 				fmt.Fprintf(&sb, "// Keep%s is documented tokDOC%s\n// on two lines.\n", up(it.ID), it.ID)
 			}
 			if it.Gen {
@@ -140,8 +144,12 @@ func layRender(l *layCase) map[string]string {
 				tr = " // trailing tokTR" + it.ID
 			}
 			switch it.Form {
-			case "var":
+			case "var", "blockvar":
 				fmt.Fprintf(&sb, "var Keep%s = 1%s\n", up(it.ID), tr)
+			case "varblock":
+				fmt.Fprintf(&sb, "var (\n\t// inner comment tokIN%s\n\tKeep%s = 1%s\n\n\tKeep%sB = \"two\"\n)\n", it.ID, up(it.ID), tr, up(it.ID))
+			case "method":
+				fmt.Fprintf(&sb, "func (k *KeepT) Keep%s(n int) int {\n\t// inside tokIN%s\n\treturn n + k.X\n}%s\n", up(it.ID), it.ID, tr)
 			case "const":
 				fmt.Fprintf(&sb, "const Keep%s = \"c\"%s\n", up(it.ID), tr)
 			case "func":
@@ -332,6 +340,9 @@ func layProject(l *layCase, src []byte) (*layObs, error) {
 				if name == "KeepAux" {
 					continue
 				}
+				if strings.HasSuffix(name, "B") && byDecl[strings.TrimSuffix(name, "B")] != nil && byDecl[strings.TrimSuffix(name, "B")].Form == "varblock" {
+					continue // second spec of a grouped declaration
+				}
 				it, ok := byDecl[name]
 				if !ok {
 					o.Problems = append(o.Problems, "unexpected declaration "+name)
@@ -340,8 +351,11 @@ func layProject(l *layCase, src []byte) (*layObs, error) {
 				switch it.K {
 				case "decl":
 					o.Items = append(o.Items, layOut{K: "decl", ID: it.ID, Doc: docHas(x.Doc, "tokDOC"+it.ID), Trail: tokLine["tokTR"+it.ID] == lineOf(end) && tokLine["tokTR"+it.ID] != 0})
-					if it.Form == "type" && tokLine["tokIN"+it.ID] == 0 {
-						o.Problems = append(o.Problems, "the field comment inside "+name+" is lost")
+					if (it.Form == "type" || it.Form == "varblock") && tokLine["tokIN"+it.ID] == 0 {
+						o.Problems = append(o.Problems, "the comment inside "+name+" is lost")
+					}
+					if it.Form == "varblock" && !strings.Contains(text, "Keep"+up(it.ID)+"B") {
+						o.Problems = append(o.Problems, "the second variable of the grouped declaration "+name+" is lost")
 					}
 				case "tmark":
 					o.Items = append(o.Items, layOut{K: "decl", ID: it.ID, Doc: docHas(x.Doc, "tokDOC"+it.ID)})
@@ -560,6 +574,9 @@ func layCrash(r *layRun) string {
 
 // C03: acceptance and one function per method, whatever the layout.
 func C03(c *core.Ctx) {
+	if c.Replay != "" {
+		replayUnsupported(c)
+	}
 	keep := 4
 	if c.Thorough() {
 		keep = 1
@@ -612,6 +629,9 @@ func c03Deviation(r *layRun) string { return "" }
 
 // C11: carry-over.
 func C11(c *core.Ctx) {
+	if c.Replay != "" {
+		replayUnsupported(c)
+	}
 	keep := 12
 	if c.Thorough() {
 		keep = 1
@@ -658,6 +678,9 @@ func c11Deviation(r *layRun, problems []string) string { return "" }
 
 // C17: selection.
 func C17(c *core.Ctx) {
+	if c.Replay != "" {
+		replayUnsupported(c)
+	}
 	cases := layEnumerate(c, "MCSelectionSelect.cfg", 1, nil)
 	runs := layRunAll(c, "c17", cases)
 	layReport(c, "layout-select", runs, func(r *layRun) ([]string, string) {
